@@ -169,6 +169,10 @@ impl Kernel {
                     }
                     self.proc_mut(pid).epipes += 1;
                     self.probe("child_survived_epipe");
+                } else {
+                    // any other write error (EBADF on a stream the parent runs without, ...):
+                    // ordinary programs report it and give up
+                    self.exit_proc(pid, ExitCause::Code(1));
                 }
                 None
             }
